@@ -884,8 +884,10 @@ class TunnelCommunity(Community):
         """
         circuit_id = payload.circuit_id
 
-        if self.request_cache.has(CreateRequestCache, payload.identifier):
-            request = self.request_cache.pop(CreateRequestCache, payload.identifier)
+        request = self.request_cache.get(CreateRequestCache, payload.identifier)
+        # The 16-bit identifier alone can be found by trying them all: the created must also name the circuit we created.
+        if request is not None and request.to_circuit_id == circuit_id:
+            self.request_cache.pop(CreateRequestCache, payload.identifier)
 
             self.logger.info("Got CREATED message forward as EXTENDED to origin.")
 
